@@ -96,6 +96,8 @@ def run_e1(facts, fname, rule, forks_entry=None, forks_assign=None):
         for kind_, st_ in exits_all:
             if ver_name in st_.ctx:
                 st_.ctx['version'] = st_.ctx.pop(ver_name)
+    if eng.escaped:
+        raise build.AnalysisBroken('%s: the cursor (or its remaining length) is handed to a callee by address (%s): the byte budget of the function is not decided by this engine' % (fname, eng.escaped))
     obls = []
     seen = {}
     for o in eng.obl:
